@@ -34,6 +34,10 @@ type c15pool struct {
 	sets []c15set
 	maps []c15map
 	hist []string
+	// a caller-owned buffer that grows by appending (spare capacity) and is handed to NewIntSet with buf...:
+	// the sets made from its earlier, shorter states must not change
+	buf      []int
+	bufModel []int
 }
 
 func newC15Pool() *c15pool {
@@ -76,6 +80,8 @@ func (o c15op) String() string {
 		return fmt.Sprintf("m%d.Inc(%d)", o.i, o.x)
 	case 4:
 		return fmt.Sprintf("m%d.Filter(s%d)", o.i, o.j)
+	case 6:
+		return fmt.Sprintf("buf = append(buf, %d); NewIntSet(buf...)", o.x)
 	default:
 		return fmt.Sprintf("NewIntMap(%v)", o.kv)
 	}
@@ -107,6 +113,16 @@ func (p *c15pool) apply(o c15op) {
 			}
 		}
 		p.maps = append(p.maps, c15map{p.maps[o.i].v.Filter(p.sets[o.j].v), w, o.String()})
+	case 6:
+		if p.buf == nil {
+			p.buf = make([]int, 0, 64)
+		}
+		if len(p.buf) == cap(p.buf) {
+			p.buf, p.bufModel = p.buf[:0], nil
+		}
+		p.buf = append(p.buf, o.x)
+		p.bufModel = append(p.bufModel, o.x)
+		p.sets = append(p.sets, c15set{data.NewIntSet(p.buf...), c15norm(p.bufModel), o.String()})
 	case 5:
 		w := map[int]int{}
 		arg := map[int]int{}
@@ -214,6 +230,9 @@ func (p *c15pool) enumOps(dom, maxList int) []c15op {
 			ops = append(ops, c15op{kind: 4, i: i, j: j})
 		}
 	}
+	for x := 0; x < dom; x++ {
+		ops = append(ops, c15op{kind: 6, x: dom - 1 - x}) // descending arrivals: a later, smaller value has to be sorted in front
+	}
 	ops = append(ops, c15op{kind: 5}, c15op{kind: 5, kv: [][2]int{{0, 1}}}, c15op{kind: 5, kv: [][2]int{{1, 2}, {2, 0}}})
 	return ops
 }
@@ -237,7 +256,9 @@ func c15val(r *rand.Rand, dom int) int {
 }
 
 func c15randOp(r *rand.Rand, p *c15pool, dom int) c15op {
-	switch r.Intn(8) {
+	switch r.Intn(9) {
+	case 8:
+		return c15op{kind: 6, x: c15val(r, dom)}
 	case 0:
 		n := r.Intn(6)
 		if dom >= 20 {
